@@ -6,7 +6,7 @@
        mass when y >= 0 and the code answers the token INF). *)
 From Coq Require Import Reals Lra Psatz Bool.
 From Coquelicot Require Import Coquelicot.
-From RV Require Import Base.RB Base.RSpecial Gen.GenC09Cgmy Model.LevyClosedForms Model.CgmyGen
+From RV Require Import Base.RB Base.RSpecial Model.PyPow Gen.GenC09Cgmy Model.LevyClosedForms Model.CgmyGen
   Proofs.C09_Generic Proofs.C09_Vg Proofs.C09_Cgmy Proofs.C09_Instances Proofs.C09_GenericQuad.
 Open Scope R_scope.
 
@@ -19,25 +19,26 @@ Lemma cgmy_density_is_nu c g m y x : cgmy_density c g m y x = cgmy_nu c g m y x.
 Proof. reflexivity. Qed.
 
 Section Gen.
-Variables (exp1 Gamma : R -> R) (gammaincc : R -> R -> R).
+Variable sf : SpecialFns.
 (* G is the product gamma(s) * gammaincc(s, x) the code forms (pointwise: no functional extensionality needed) *)
 Variable G : R -> R -> R.
-Hypothesis HG : forall s x, Gamma s * gammaincc s x = G s x.
+Hypothesis HG : forall s x, sf_Gamma sf s * sf_gammaincc sf s x = G s x.
 
 (* ---------------------------------------------------------------- __integrate_h_to_inf *)
-Lemma h_to_inf_F_lt1 rec alpha h u : h <> 0 -> alpha <> 0 -> alpha < 1 ->
-  cgmy_h_to_inf_F exp1 Gamma gammaincc rec alpha h u = cgmy_tail G alpha h u.
+Lemma h_to_inf_F_lt1 rec alpha h u : h <> 0 -> u <> 0 -> alpha <> 0 -> alpha < 1 ->
+  cgmy_h_to_inf_F sf rec alpha h u = cgmy_tail G alpha h u.
 Proof.
-  intros Hh H0 H1. unfold cgmy_h_to_inf_F, cgmy_tail. cbv zeta. rewrite <- HG.
+  intros Hh Hu H0 H1. assert (Huh : u * h <> 0) by (apply Rmult_integral_contrapositive_currified; assumption).
+  unfold cgmy_h_to_inf_F, cgmy_tail. cbv zeta. rewrite <- HG. rewrite !pypow_ne0 by assumption.
   rewrite (Reqb_ne alpha 0), (Reqb_ne h 0) by assumption. cbn [andb].
   replace (Rleb 1 alpha) with false by (symmetry; apply Rleb_false; lra).
   unfold Rdiv. ring.
 Qed.
 
-Lemma cgmy_h2inf_is_tail_code alpha h u : h <> 0 -> alpha < 2 ->
-  cgmy_h2inf exp1 Gamma gammaincc alpha h u = cgmy_tail_code exp1 G alpha h u.
+Lemma cgmy_h2inf_is_tail_code alpha h u : h <> 0 -> u <> 0 -> alpha < 2 ->
+  cgmy_h2inf sf alpha h u = cgmy_tail_code (sf_exp1 sf) G alpha h u.
 Proof.
-  intros Hh H2. unfold cgmy_h2inf, cgmy_tail_code.
+  intros Hh Hu H2. unfold cgmy_h2inf, cgmy_tail_code.
   destruct (Req_dec alpha 0) as [E0 | N0].
   { unfold cgmy_h_to_inf_F. cbv zeta. subst alpha. rewrite !Reqb_same. reflexivity. }
   destruct (Rle_dec 1 alpha) as [L1 | L1].
@@ -45,9 +46,9 @@ Proof.
     rewrite (Reqb_ne alpha 0), (Reqb_ne h 0) by assumption. cbn [andb].
     replace (Rleb 1 alpha) with true by (symmetry; apply Rleb_true; lra).
     destruct (Req_dec (alpha - 1) 0) as [E1 | N1].
-    + unfold cgmy_h_to_inf_F. cbv zeta. rewrite E1, !Reqb_same. unfold Rdiv. ring.
+    + unfold cgmy_h_to_inf_F. cbv zeta. rewrite E1, !Reqb_same. rewrite !pypow_ne0 by assumption. unfold Rdiv. ring.
     + rewrite (Reqb_ne (alpha - 1) 0) by assumption.
-      rewrite h_to_inf_F_lt1 by (try assumption; lra). unfold Rdiv. ring.
+      rewrite h_to_inf_F_lt1 by (try assumption; lra). rewrite !pypow_ne0 by assumption. unfold Rdiv. ring.
   - rewrite (Reqb_ne alpha 0) by assumption.
     replace (Rleb 1 alpha) with false by (symmetry; apply Rleb_false; lra).
     apply h_to_inf_F_lt1; try assumption; lra.
@@ -55,7 +56,7 @@ Qed.
 
 (* the unrolling is complete: for alpha < 2 the default callee is never reached *)
 Lemma cgmy_h2inf_unroll_complete d alpha h u : alpha < 2 ->
-  cgmy_h_to_inf_F exp1 Gamma gammaincc (cgmy_h_to_inf_F exp1 Gamma gammaincc d) alpha h u = cgmy_h2inf exp1 Gamma gammaincc alpha h u.
+  cgmy_h_to_inf_F sf (cgmy_h_to_inf_F sf d) alpha h u = cgmy_h2inf sf alpha h u.
 Proof.
   intros H2. unfold cgmy_h2inf.
   unfold cgmy_h_to_inf_F at 1 3. cbv zeta.
@@ -70,19 +71,19 @@ Proof.
 Qed.
 
 (* ---------------------------------------------------------------- __integrate_h_to_inf_for_xx *)
-Lemma cgmy_hxx_is_tail_x_code INF alpha h u : h <> 0 ->
-  cgmy_h_to_inf_for_xx exp1 Gamma gammaincc INF alpha h u = cgmy_tail_x_code exp1 G alpha h u.
+Lemma cgmy_hxx_is_tail_x_code INF alpha h u : h <> 0 -> u <> 0 ->
+  cgmy_h_to_inf_for_xx sf INF alpha h u = cgmy_tail_x_code (sf_exp1 sf) G alpha h u.
 Proof.
-  intros Hh. unfold cgmy_h_to_inf_for_xx, cgmy_tail_x_code, cgmy_tail_x. cbv zeta. rewrite <- HG.
+  intros Hh Hu. unfold cgmy_h_to_inf_for_xx, cgmy_tail_x_code, cgmy_tail_x. cbv zeta. rewrite <- HG. rewrite !pypow_ne0 by assumption.
   rewrite one_over_one, (Reqb_ne h 0) by assumption. cbn [andb].
   destruct (Reqb alpha 1); [reflexivity|]. unfold Rdiv. ring.
 Qed.
 
 (* ---------------------------------------------------------------- integrate / integrate_against_x on one side of zero *)
-Lemma cgmy_integrate_is_pos_code INF c g m y a b : y < 2 -> 0 < a -> a <= b -> b < INF ->
-  cgmy_integrate exp1 Gamma gammaincc INF c g m y a b = cgmy_mass_pos_code exp1 G c m y a b.
+Lemma cgmy_integrate_is_pos_code INF c g m y a b : m <> 0 -> y < 2 -> 0 < a -> a <= b -> b < INF ->
+  cgmy_integrate sf INF c g m y a b = cgmy_mass_pos_code (sf_exp1 sf) G c m y a b.
 Proof.
-  intros Hy Ha Hab Hb. unfold cgmy_integrate, cgmy_integrate_F at 1, cgmy_mass_pos_code.
+  intros Hm0 Hy Ha Hab Hb. unfold cgmy_integrate, cgmy_integrate_F at 1, cgmy_mass_pos_code.
   destruct (Req_dec a b) as [E | N].
   { subst b. rewrite Reqb_same, zero_over_one. ring. }
   rewrite (Reqb_ne a b) by assumption. rb. cbn [andb].
@@ -91,10 +92,10 @@ Proof.
   unfold cgmy_a2inf, cgmy_a_to_inf. rewrite !cgmy_h2inf_is_tail_code by (try assumption; lra). reflexivity.
 Qed.
 
-Lemma cgmy_integrate_is_neg_code INF c g m y a b : y < 2 -> - INF < a -> a <= b -> b < 0 ->
-  cgmy_integrate exp1 Gamma gammaincc INF c g m y a b = cgmy_mass_neg_code exp1 G c g y a b.
+Lemma cgmy_integrate_is_neg_code INF c g m y a b : g <> 0 -> y < 2 -> - INF < a -> a <= b -> b < 0 ->
+  cgmy_integrate sf INF c g m y a b = cgmy_mass_neg_code (sf_exp1 sf) G c g y a b.
 Proof.
-  intros Hy Ha Hab Hb. unfold cgmy_integrate, cgmy_integrate_F at 1, cgmy_mass_neg_code.
+  intros Hg0 Hy Ha Hab Hb. unfold cgmy_integrate, cgmy_integrate_F at 1, cgmy_mass_neg_code.
   destruct (Req_dec a b) as [E | N].
   { subst b. rewrite Reqb_same, zero_over_one. ring. }
   rewrite (Reqb_ne a b) by assumption. rb. cbn [andb]. rewrite ?andb_false_r. cbn [andb].
@@ -103,30 +104,30 @@ Proof.
   unfold cgmy_inf2b, cgmy_inf_to_b. rewrite !cgmy_h2inf_is_tail_code by (try assumption; lra). reflexivity.
 Qed.
 
-Lemma cgmy_integrate_x_is_pos_code INF c g m y a b : 0 < a -> a <= b -> b < INF ->
-  cgmy_integrate_x exp1 Gamma gammaincc INF c g m y a b = cgmy_x_pos_code exp1 G c m y a b.
+Lemma cgmy_integrate_x_is_pos_code INF c g m y a b : m <> 0 -> 0 < a -> a <= b -> b < INF ->
+  cgmy_integrate_x sf INF c g m y a b = cgmy_x_pos_code (sf_exp1 sf) G c m y a b.
 Proof.
-  intros Ha Hab Hb. unfold cgmy_integrate_x, cgmy_integrate_x_F at 1, cgmy_x_pos_code. cbv zeta.
+  intros Hm0 Ha Hab Hb. unfold cgmy_integrate_x, cgmy_integrate_x_F at 1, cgmy_x_pos_code. cbv zeta.
   destruct (Req_dec a b) as [E | N].
   { subst b. rewrite Reqb_same, zero_over_one. ring. }
   rewrite (Reqb_ne a b) by assumption. rb. rewrite (Reqb_ne b INF) by lra.
-  rewrite !cgmy_hxx_is_tail_x_code by lra. reflexivity.
+  rewrite !cgmy_hxx_is_tail_x_code by (first [assumption | lra]). reflexivity.
 Qed.
 
-Lemma cgmy_integrate_x_is_neg_code INF c g m y a b : - INF < a -> a <= b -> b < 0 ->
-  cgmy_integrate_x exp1 Gamma gammaincc INF c g m y a b = cgmy_x_neg_code exp1 G c g y a b.
+Lemma cgmy_integrate_x_is_neg_code INF c g m y a b : g <> 0 -> - INF < a -> a <= b -> b < 0 ->
+  cgmy_integrate_x sf INF c g m y a b = cgmy_x_neg_code (sf_exp1 sf) G c g y a b.
 Proof.
-  intros Ha Hab Hb. unfold cgmy_integrate_x, cgmy_integrate_x_F at 1, cgmy_x_neg_code. cbv zeta.
+  intros Hg0 Ha Hab Hb. unfold cgmy_integrate_x, cgmy_integrate_x_F at 1, cgmy_x_neg_code. cbv zeta.
   destruct (Req_dec a b) as [E | N].
   { subst b. rewrite Reqb_same, zero_over_one. ring. }
   rewrite (Reqb_ne a b) by assumption. rb. rewrite (Reqb_ne a (- INF)) by lra.
-  rewrite !cgmy_hxx_is_tail_x_code by lra. reflexivity.
+  rewrite !cgmy_hxx_is_tail_x_code by (first [assumption | lra]). reflexivity.
 Qed.
 
 (* ---------------------------------------------------------------- the self-calls of integrate / integrate_against_x / a_to_b
    on (a, 0.0) and (0.0, b) never call themselves again: the result does not depend on the default callee *)
 Lemma integrate_x_F_no_rec d d' INF c g m y a b : a = 0 \/ b = 0 ->
-  cgmy_integrate_x_F exp1 Gamma gammaincc d INF c g m y a b = cgmy_integrate_x_F exp1 Gamma gammaincc d' INF c g m y a b.
+  cgmy_integrate_x_F sf d INF c g m y a b = cgmy_integrate_x_F sf d' INF c g m y a b.
 Proof.
   intros H. unfold cgmy_integrate_x_F. cbv zeta.
   destruct (Reqb a b); [reflexivity|]. destruct H as [-> | ->].
@@ -134,8 +135,8 @@ Proof.
   - destruct (Rleb 0 a); [reflexivity|]. rb. reflexivity.
 Qed.
 Lemma cgmy_integrate_x_unroll_complete d INF c g m y a b :
-  cgmy_integrate_x_F exp1 Gamma gammaincc (cgmy_integrate_x_F exp1 Gamma gammaincc d INF c g m y) INF c g m y a b
-  = cgmy_integrate_x exp1 Gamma gammaincc INF c g m y a b.
+  cgmy_integrate_x_F sf (cgmy_integrate_x_F sf d INF c g m y) INF c g m y a b
+  = cgmy_integrate_x sf INF c g m y a b.
 Proof.
   unfold cgmy_integrate_x. unfold cgmy_integrate_x_F at 1 3. cbv zeta. rewrite zero_over_one.
   destruct (Reqb a b); [reflexivity|]. destruct (Rleb 0 a); [reflexivity|]. destruct (Rleb b 0); [reflexivity|].
@@ -143,11 +144,11 @@ Proof.
 Qed.
 
 (* ---------------------------------------------------------------- branch facts of the generated integrate *)
-Lemma cgmy_integrate_point INF c g m y a : cgmy_integrate exp1 Gamma gammaincc INF c g m y a a = 0.
+Lemma cgmy_integrate_point INF c g m y a : cgmy_integrate sf INF c g m y a a = 0.
 Proof. unfold cgmy_integrate, cgmy_integrate_F at 1. rewrite Reqb_same. apply zero_over_one. Qed.
 
 Lemma cgmy_integrate_infinite INF c g m y a b : a < b -> a <= 0 <= b -> 0 <= y ->
-  cgmy_integrate exp1 Gamma gammaincc INF c g m y a b = INF.
+  cgmy_integrate sf INF c g m y a b = INF.
 Proof.
   intros Hab [Ha Hb] Hy. unfold cgmy_integrate, cgmy_integrate_F at 1.
   rewrite (Reqb_ne a b) by lra. rb. reflexivity.
@@ -156,104 +157,325 @@ End Gen.
 
 (* ---------------------------------------------------------------- the theorems of wave 5, restated on the generated definitions *)
 Section Restated.
-Variables (exp1 Gamma : R -> R) (gammaincc : R -> R -> R).
-Hypothesis exp1_derive : forall x, 0 < x -> is_derive exp1 x (- (exp (- x) / x)).
-Hypothesis Gup_derive : forall s x, 0 < x -> is_derive (fun x => Gamma s * gammaincc s x) x (- (Rpower x (s - 1) * exp (- x))).
+Variable sf : SpecialFns.
+Hypothesis exp1_derive : forall x, 0 < x -> is_derive (sf_exp1 sf) x (- (exp (- x) / x)).
+Hypothesis Gup_derive : forall s x, 0 < x -> is_derive (fun x => sf_Gamma sf s * sf_gammaincc sf s x) x (- (Rpower x (s - 1) * exp (- x))).
 
-Let G := Gup_of Gamma gammaincc.
+Let G := Gup_of sf.
 Lemma G_derive : forall s x, 0 < x -> is_derive (G s) x (- (Rpower x (s - 1) * exp (- x))).
 Proof. exact Gup_derive. Qed.
-Lemma G_is_product : forall s x, Gamma s * gammaincc s x = G s x.
+Lemma G_is_product : forall s x, sf_Gamma sf s * sf_gammaincc sf s x = G s x.
 Proof. reflexivity. Qed.
 
 Theorem c09_cgmy_gen_mass_pf INF c g m y : 0 < g -> 0 < m -> y < 2 ->
   (forall a b, 0 < a -> a <= b -> b < INF ->
-     is_RInt (fun x => x ^ 0 * cgmy_density c g m y x) a b (cgmy_integrate exp1 Gamma gammaincc INF c g m y a b)) /\
+     is_RInt (fun x => x ^ 0 * cgmy_density c g m y x) a b (cgmy_integrate sf INF c g m y a b)) /\
   (forall a b, - INF < a -> a <= b -> b < 0 ->
-     is_RInt (fun x => x ^ 0 * cgmy_density c g m y x) a b (cgmy_integrate exp1 Gamma gammaincc INF c g m y a b)).
+     is_RInt (fun x => x ^ 0 * cgmy_density c g m y x) a b (cgmy_integrate sf INF c g m y a b)).
 Proof.
   intros Hg Hm Hy. split; intros a b H1 H2 H3.
-  - rewrite (cgmy_integrate_is_pos_code exp1 Gamma gammaincc G G_is_product) by assumption.
+  - rewrite (cgmy_integrate_is_pos_code sf G G_is_product) by (first [assumption | lra]).
     apply cgmy_mass_pos_code_is_RInt; first [assumption | exact G_derive].
-  - rewrite (cgmy_integrate_is_neg_code exp1 Gamma gammaincc G G_is_product) by assumption.
+  - rewrite (cgmy_integrate_is_neg_code sf G G_is_product) by (first [assumption | lra]).
     apply cgmy_mass_neg_code_is_RInt; first [assumption | exact G_derive].
 Qed.
 
 Theorem c09_cgmy_gen_x_pf INF c g m y : 0 < g -> 0 < m ->
   (forall a b, 0 < a -> a <= b -> b < INF ->
-     is_RInt (fun x => x ^ 1 * cgmy_density c g m y x) a b (cgmy_integrate_x exp1 Gamma gammaincc INF c g m y a b)) /\
+     is_RInt (fun x => x ^ 1 * cgmy_density c g m y x) a b (cgmy_integrate_x sf INF c g m y a b)) /\
   (forall a b, - INF < a -> a <= b -> b < 0 ->
-     is_RInt (fun x => x ^ 1 * cgmy_density c g m y x) a b (cgmy_integrate_x exp1 Gamma gammaincc INF c g m y a b)).
+     is_RInt (fun x => x ^ 1 * cgmy_density c g m y x) a b (cgmy_integrate_x sf INF c g m y a b)).
 Proof.
   intros Hg Hm. split; intros a b H1 H2 H3.
-  - rewrite (cgmy_integrate_x_is_pos_code exp1 Gamma gammaincc G G_is_product) by assumption.
+  - rewrite (cgmy_integrate_x_is_pos_code sf G G_is_product) by (first [assumption | lra]).
     apply cgmy_x_pos_code_is_RInt; first [assumption | exact G_derive].
-  - rewrite (cgmy_integrate_x_is_neg_code exp1 Gamma gammaincc G G_is_product) by assumption.
+  - rewrite (cgmy_integrate_x_is_neg_code sf G G_is_product) by (first [assumption | lra]).
     apply cgmy_x_neg_code_is_RInt; first [assumption | exact G_derive].
 Qed.
 Theorem c09_cgmy_gen_additive_sign_pf INF c g m y : 0 <= c -> 0 < g -> 0 < m -> y < 2 ->
-  let I := cgmy_integrate exp1 Gamma gammaincc INF c g m y in let Ix := cgmy_integrate_x exp1 Gamma gammaincc INF c g m y in
+  let I := cgmy_integrate sf INF c g m y in let Ix := cgmy_integrate_x sf INF c g m y in
   (forall a b cc, 0 < a -> a <= b <= cc -> cc < INF ->
      I a cc = I a b + I b cc /\ Ix a cc = Ix a b + Ix b cc /\ 0 <= I a cc /\ 0 <= Ix a cc) /\
   (forall a b cc, - INF < a -> a <= b <= cc -> cc < 0 ->
      I a cc = I a b + I b cc /\ Ix a cc = Ix a b + Ix b cc /\ 0 <= I a cc /\ Ix a cc <= 0).
 Proof.
   intros Hc Hg Hm Hy I Ix.
-  destruct (cgmy_additive_sign exp1 G exp1_derive G_derive c g m y Hc Hg Hm Hy) as [Hp Hn].
+  destruct (cgmy_additive_sign (sf_exp1 sf) G exp1_derive G_derive c g m y Hc Hg Hm Hy) as [Hp Hn].
   split; intros a b cc Ha [Hab Hbc] Hcc; unfold I, Ix.
-  - rewrite !(cgmy_integrate_is_pos_code exp1 Gamma gammaincc G G_is_product) by lra.
-    rewrite !(cgmy_integrate_x_is_pos_code exp1 Gamma gammaincc G G_is_product) by lra.
+  - rewrite !(cgmy_integrate_is_pos_code sf G G_is_product) by lra.
+    rewrite !(cgmy_integrate_x_is_pos_code sf G G_is_product) by lra.
     apply Hp; [assumption | split; assumption].
-  - rewrite !(cgmy_integrate_is_neg_code exp1 Gamma gammaincc G G_is_product) by lra.
-    rewrite !(cgmy_integrate_x_is_neg_code exp1 Gamma gammaincc G G_is_product) by lra.
+  - rewrite !(cgmy_integrate_is_neg_code sf G G_is_product) by lra.
+    rewrite !(cgmy_integrate_x_is_neg_code sf G G_is_product) by lra.
     apply Hn; [assumption | split; assumption].
 Qed.
 End Restated.
 
 (* ---------------------------------------------------------------- statements of Properties/C09.v *)
-Lemma c09_cgmy_gen_is_hand_model_pf : forall (exp1 Gamma : R -> R) (gammaincc : R -> R -> R) INF c g m y,
-  (forall a b, 0 < a -> a <= b -> b < INF ->
-     (y < 2 -> cgmy_integrate exp1 Gamma gammaincc INF c g m y a b = cgmy_mass_pos_code exp1 (Gup_of Gamma gammaincc) c m y a b) /\
-     cgmy_integrate_x exp1 Gamma gammaincc INF c g m y a b = cgmy_x_pos_code exp1 (Gup_of Gamma gammaincc) c m y a b) /\
-  (forall a b, - INF < a -> a <= b -> b < 0 ->
-     (y < 2 -> cgmy_integrate exp1 Gamma gammaincc INF c g m y a b = cgmy_mass_neg_code exp1 (Gup_of Gamma gammaincc) c g y a b) /\
-     cgmy_integrate_x exp1 Gamma gammaincc INF c g m y a b = cgmy_x_neg_code exp1 (Gup_of Gamma gammaincc) c g y a b).
+Lemma c09_cgmy_gen_is_hand_model_pf : forall (sf : SpecialFns) INF c g m y,
+  (forall a b, m <> 0 -> 0 < a -> a <= b -> b < INF ->
+     (y < 2 -> cgmy_integrate sf INF c g m y a b = cgmy_mass_pos_code (sf_exp1 sf) (Gup_of sf) c m y a b) /\
+     cgmy_integrate_x sf INF c g m y a b = cgmy_x_pos_code (sf_exp1 sf) (Gup_of sf) c m y a b) /\
+  (forall a b, g <> 0 -> - INF < a -> a <= b -> b < 0 ->
+     (y < 2 -> cgmy_integrate sf INF c g m y a b = cgmy_mass_neg_code (sf_exp1 sf) (Gup_of sf) c g y a b) /\
+     cgmy_integrate_x sf INF c g m y a b = cgmy_x_neg_code (sf_exp1 sf) (Gup_of sf) c g y a b).
 Proof.
-  intros exp1 Gamma gammaincc INF c g m y.
-  assert (HG : forall s x, Gamma s * gammaincc s x = Gup_of Gamma gammaincc s x) by reflexivity.
-  split; intros a b H1 H2 H3; split.
+  intros sf INF c g m y.
+  assert (HG : forall s x, sf_Gamma sf s * sf_gammaincc sf s x = Gup_of sf s x) by reflexivity.
+  split; intros a b H0 H1 H2 H3; split.
   - intros Hy. apply cgmy_integrate_is_pos_code; assumption.
   - apply cgmy_integrate_x_is_pos_code; assumption.
   - intros Hy. apply cgmy_integrate_is_neg_code; assumption.
   - apply cgmy_integrate_x_is_neg_code; assumption.
 Qed.
 
-Lemma c09_cgmy_gen_unroll_complete_pf : forall (exp1 Gamma : R -> R) (gammaincc : R -> R -> R),
+Lemma c09_cgmy_gen_unroll_complete_pf : forall (sf : SpecialFns),
   (forall d alpha h u, alpha < 2 ->
-     cgmy_h_to_inf_F exp1 Gamma gammaincc (cgmy_h_to_inf_F exp1 Gamma gammaincc d) alpha h u = cgmy_h2inf exp1 Gamma gammaincc alpha h u) /\
+     cgmy_h_to_inf_F sf (cgmy_h_to_inf_F sf d) alpha h u = cgmy_h2inf sf alpha h u) /\
   (forall d INF c g m y a b,
-     cgmy_integrate_x_F exp1 Gamma gammaincc (cgmy_integrate_x_F exp1 Gamma gammaincc d INF c g m y) INF c g m y a b
-     = cgmy_integrate_x exp1 Gamma gammaincc INF c g m y a b).
+     cgmy_integrate_x_F sf (cgmy_integrate_x_F sf d INF c g m y) INF c g m y a b
+     = cgmy_integrate_x sf INF c g m y a b).
 Proof.
   intros. split; intros.
   - apply cgmy_h2inf_unroll_complete. assumption.
   - apply cgmy_integrate_x_unroll_complete.
 Qed.
 
-Lemma c09_cgmy_gen_mass_branches_pf : forall (exp1 Gamma : R -> R) (gammaincc : R -> R -> R) INF c g m y,
-  (forall a, cgmy_integrate exp1 Gamma gammaincc INF c g m y a a = 0) /\
-  (forall a b, a < b -> a <= 0 <= b -> 0 <= y -> cgmy_integrate exp1 Gamma gammaincc INF c g m y a b = INF).
+Lemma c09_cgmy_gen_mass_branches_pf : forall (sf : SpecialFns) INF c g m y,
+  (forall a, cgmy_integrate sf INF c g m y a a = 0) /\
+  (forall a b, a < b -> a <= 0 <= b -> 0 <= y -> cgmy_integrate sf INF c g m y a b = INF).
 Proof. intros. split; intros. apply cgmy_integrate_point. apply cgmy_integrate_infinite; assumption. Qed.
 
+(* the instance used by the Examples and by the interval case lemmas: every function bound by NAME *)
+Definition sf_inst (c0 g0 : R) : SpecialFns :=
+  {| sf_exp1 := E1c c0; sf_Gamma := fun _ => 1; sf_gammaincc := Gupc g0; sf_gammainc := fun _ _ => 0; sf_quad_xx := fun _ _ => 0 |}.
+
 Lemma c09_cgmy_gen_nonvacuous_pf : forall c0 g0,
-  (forall x, 0 < x -> is_derive (E1c c0) x (- (exp (- x) / x))) /\
-  (forall s x, 0 < x -> is_derive (fun x => (fun _ : R => 1) s * Gupc g0 s x) x (- (Rpower x (s - 1) * exp (- x)))) /\
-  cgmy_integrate (E1c c0) (fun _ => 1) (Gupc g0) 9 1 3 5 (1 / 2) 1 2 = cgmy_mass_pos_code (E1c c0) (Gupc g0) 1 5 (1 / 2) 1 2 /\
-  cgmy_integrate_x (E1c c0) (fun _ => 1) (Gupc g0) 9 1 3 5 (1 / 2) (-2) (-1) = cgmy_x_neg_code (E1c c0) (Gupc g0) 1 3 (1 / 2) (-2) (-1).
+  (forall x, 0 < x -> is_derive (sf_exp1 (sf_inst c0 g0)) x (- (exp (- x) / x))) /\
+  (forall s x, 0 < x -> is_derive (fun x => sf_Gamma (sf_inst c0 g0) s * sf_gammaincc (sf_inst c0 g0) s x) x (- (Rpower x (s - 1) * exp (- x)))) /\
+  cgmy_integrate (sf_inst c0 g0) 9 1 3 5 (1 / 2) 1 2 = cgmy_mass_pos_code (E1c c0) (Gupc g0) 1 5 (1 / 2) 1 2 /\
+  cgmy_integrate_x (sf_inst c0 g0) 9 1 3 5 (1 / 2) (-2) (-1) = cgmy_x_neg_code (E1c c0) (Gupc g0) 1 3 (1 / 2) (-2) (-1).
 Proof.
   intros c0 g0. split; [|split; [|split]].
   - intros x Hx. apply E1c_derive. assumption.
   - intros s x Hx. apply (is_derive_ext (Gupc g0 s)); [intros t; symmetry; apply Rmult_1_l | apply Gupc_derive; assumption].
-  - apply cgmy_integrate_is_pos_code; try lra. intros; ring.
-  - apply cgmy_integrate_x_is_neg_code; try lra. intros; ring.
+  - apply cgmy_integrate_is_pos_code; try lra. intros; cbn; ring.
+  - apply cgmy_integrate_x_is_neg_code; try lra. intros; cbn; ring.
+Qed.
+
+(* ================================================================ wave 8 (audit 5a B1): the END POINT 0.
+   With `**` translated to pypow the generated first-moment helper has the code's value at h = 0 (alpha < 1: the branch every
+   finite-variation CGMY chain drift uses, markovchain.py: integrate_against_x(-inf, -0.0) + integrate_against_x(0.0, inf)). *)
+Section EndPoint.
+Variable sf : SpecialFns.
+
+(* the value the code computes at h = 0: h ** (1 - alpha) is 0.0, what is left is the gamma term at u * 0 *)
+Lemma cgmy_hxx_at_zero INF alpha u : alpha < 1 -> u <> 0 ->
+  cgmy_h_to_inf_for_xx sf INF alpha 0 u
+  = Rpower u (alpha - 1) * (sf_Gamma sf (2 - alpha) * sf_gammaincc sf (2 - alpha) (u * 0)) / (1 - alpha).
+Proof.
+  intros Ha Hu. unfold cgmy_h_to_inf_for_xx. cbv zeta. rewrite one_over_one, Reqb_same.
+  replace (Rltb 1 alpha) with false by (symmetry; apply Rltb_false; lra). cbn [andb].
+  rewrite (Reqb_ne alpha 1) by lra. rewrite pypow_0_pos by lra. rewrite pypow_ne0 by assumption.
+  field. lra.
+Qed.
+
+(* the same term with py2coq's former translation (Rpower 0 (1 - alpha) = 1) differs from it by exp(0)/(alpha - 1): the B1 gap *)
+Lemma cgmy_hxx_at_zero_old_translation_gap alpha u : alpha < 1 ->
+  (Rpower 0 (1 - alpha) * exp (- (u * 0)) - pypow 0 (1 - alpha) * exp (- (u * 0))) / (alpha - 1) = 1 / (alpha - 1).
+Proof.
+  intros Ha. destruct (Rpower_0_is_not_python (1 - alpha)) as [E1 E2]; [lra|]. rewrite E1, E2.
+  rewrite Rmult_0_r, Ropp_0, exp_0. field. lra.
+Qed.
+
+(* integrate_against_x with an end point AT zero, the four shapes the drift uses: [0, b], [0, inf), [a, 0], (-inf, 0] *)
+Lemma cgmy_integrate_x_from_zero INF c g m y b : y < 1 -> m <> 0 -> 0 < b -> b < INF ->
+  cgmy_integrate_x sf INF c g m y 0 b
+  = c * (Rpower m (y - 1) * (sf_Gamma sf (2 - y) * sf_gammaincc sf (2 - y) (m * 0)) / (1 - y) - cgmy_h_to_inf_for_xx sf INF y b m).
+Proof.
+  intros Hy Hm Hb HI. unfold cgmy_integrate_x, cgmy_integrate_x_F at 1. cbv zeta.
+  rewrite (Reqb_ne 0 b) by lra. rb. rewrite (Reqb_ne b INF) by lra.
+  rewrite cgmy_hxx_at_zero by assumption. reflexivity.
+Qed.
+Lemma cgmy_integrate_x_zero_to_inf INF c g m y : y < 1 -> m <> 0 -> 0 < INF ->
+  cgmy_integrate_x sf INF c g m y 0 INF
+  = c * (Rpower m (y - 1) * (sf_Gamma sf (2 - y) * sf_gammaincc sf (2 - y) (m * 0)) / (1 - y)).
+Proof.
+  intros Hy Hm HI. unfold cgmy_integrate_x, cgmy_integrate_x_F at 1. cbv zeta.
+  rewrite (Reqb_ne 0 INF) by lra. rb. rewrite Reqb_same.
+  rewrite cgmy_hxx_at_zero by assumption. reflexivity.
+Qed.
+Lemma cgmy_integrate_x_to_zero INF c g m y a : y < 1 -> g <> 0 -> - INF < a -> a < 0 ->
+  cgmy_integrate_x sf INF c g m y a 0
+  = c * (cgmy_h_to_inf_for_xx sf INF y (- a) g - Rpower g (y - 1) * (sf_Gamma sf (2 - y) * sf_gammaincc sf (2 - y) (g * 0)) / (1 - y)).
+Proof.
+  intros Hy Hg Ha Ha0. unfold cgmy_integrate_x, cgmy_integrate_x_F at 1. cbv zeta.
+  rewrite (Reqb_ne a 0) by lra. rb. rewrite (Reqb_ne a (- INF)) by lra.
+  rewrite Ropp_0. rewrite cgmy_hxx_at_zero by assumption. reflexivity.
+Qed.
+Lemma cgmy_integrate_x_minf_to_zero INF c g m y : y < 1 -> g <> 0 -> 0 < INF ->
+  cgmy_integrate_x sf INF c g m y (- INF) 0
+  = - c * (Rpower g (y - 1) * (sf_Gamma sf (2 - y) * sf_gammaincc sf (2 - y) (g * 0)) / (1 - y)).
+Proof.
+  intros Hy Hg HI. unfold cgmy_integrate_x, cgmy_integrate_x_F at 1. cbv zeta.
+  rewrite (Reqb_ne (- INF) 0) by lra. rb. rewrite Reqb_same.
+  rewrite Ropp_0. rewrite cgmy_hxx_at_zero by assumption. reflexivity.
+Qed.
+(* a straddling interval is the sum of the two end-point-at-zero calls (the self-calls of the code) *)
+Lemma cgmy_integrate_x_straddle INF c g m y a b : a < 0 -> 0 < b ->
+  cgmy_integrate_x sf INF c g m y a b = cgmy_integrate_x sf INF c g m y a 0 + cgmy_integrate_x sf INF c g m y 0 b.
+Proof.
+  intros Ha Hb. unfold cgmy_integrate_x at 1. unfold cgmy_integrate_x_F at 1. cbv zeta.
+  rewrite (Reqb_ne a b) by lra. rb. rewrite zero_over_one.
+  f_equal; unfold cgmy_integrate_x; apply integrate_x_F_no_rec; auto.
+Qed.
+End EndPoint.
+
+(* what the end-point value MEANS: it is the limit of the code's own values on [a, b] as a decreases to 0 -- and those are the
+   integrals of x * density over [a, b] (C09_cgmy_gen_x_partial) -- PROVIDED gamma(s) * gammaincc(s, .) is right-continuous at 0
+   (true of the real function, whose value there is gamma(s): scipy.special.gammaincc(s, 0) = 1; the LOWER function gammainc has
+   the value 0 there, see c09_cgmy_gen_endpoint_pf clause 3). *)
+Lemma Rpower_to_zero p eps : 0 < p -> 0 < eps -> exists d, 0 < d /\ forall h, 0 < h < d -> Rpower h p < eps.
+Proof.
+  intros Hp He. exists (Rpower eps (/ p)). split; [apply exp_pos|]. intros h [H0 Hd].
+  replace eps with (Rpower (Rpower eps (/ p)) p).
+  - apply Rlt_Rpower_l; [assumption | split; assumption].
+  - rewrite Rpower_mult. replace (/ p * p) with 1 by (field; lra). apply Rpower_1. assumption.
+Qed.
+
+Lemma c09_cgmy_gen_endpoint_pf : forall (sf : SpecialFns) INF c g m y, y < 1 -> 0 < m -> 0 < g -> 0 < INF ->
+  (* 1: the four calls with an end point at zero, in closed form (value of the incomplete gamma at 0 kept symbolic) *)
+  (let K u := Rpower u (y - 1) * (sf_Gamma sf (2 - y) * sf_gammaincc sf (2 - y) (u * 0)) / (1 - y) in
+   (forall b, 0 < b -> b < INF -> cgmy_integrate_x sf INF c g m y 0 b = c * (K m - cgmy_h_to_inf_for_xx sf INF y b m)) /\
+   cgmy_integrate_x sf INF c g m y 0 INF = c * K m /\
+   (forall a, - INF < a -> a < 0 -> cgmy_integrate_x sf INF c g m y a 0 = c * (cgmy_h_to_inf_for_xx sf INF y (- a) g - K g)) /\
+   cgmy_integrate_x sf INF c g m y (- INF) 0 = - c * K g) /\
+  (* 2: a straddling interval is the sum of the two calls that end at zero *)
+  (forall a b, a < 0 -> 0 < b ->
+     cgmy_integrate_x sf INF c g m y a b = cgmy_integrate_x sf INF c g m y a 0 + cgmy_integrate_x sf INF c g m y 0 b) /\
+  (* 3: under gammaincc(s, 0) = 1 (characterises the UPPER function: the lower one is 0 there) the half-line first moments are
+        c gamma(2-y) m^(y-1) / (1-y) = c gamma(1-y) m^(y-1) and its mirror image: positive on the right, negative on the left *)
+  (sf_gammaincc sf (2 - y) 0 = 1 -> 0 < sf_Gamma sf (2 - y) -> 0 < c ->
+     cgmy_integrate_x sf INF c g m y 0 INF = c * sf_Gamma sf (2 - y) * Rpower m (y - 1) / (1 - y) /\
+     0 < cgmy_integrate_x sf INF c g m y 0 INF /\ cgmy_integrate_x sf INF c g m y (- INF) 0 < 0) /\
+  (* 4: right-continuity of gamma * gammaincc at 0 => the value at the end point 0 is the limit of the values on [a, b], a -> 0+ *)
+  ((forall s eps, 0 < eps -> exists d, 0 < d /\ forall x, 0 < x < d ->
+        Rabs (sf_Gamma sf s * sf_gammaincc sf s x - sf_Gamma sf s * sf_gammaincc sf s 0) < eps) ->
+   forall b eps, 0 < b -> b < INF -> 0 < eps -> exists d, 0 < d /\ forall a, 0 < a < d ->
+     Rabs (cgmy_integrate_x sf INF c g m y a b - cgmy_integrate_x sf INF c g m y 0 b) <= eps).
+Proof.
+  intros sf INF c g m y Hy Hm Hg HI.
+  assert (Hm0 : m <> 0) by lra. assert (Hg0 : g <> 0) by lra.
+  split; [|split; [|split]].
+  - cbv zeta. repeat split.
+    + intros b Hb HbI. apply cgmy_integrate_x_from_zero; assumption.
+    + apply cgmy_integrate_x_zero_to_inf; assumption.
+    + intros a Ha Ha0. apply cgmy_integrate_x_to_zero; assumption.
+    + apply cgmy_integrate_x_minf_to_zero; assumption.
+  - intros a b Ha Hb. apply cgmy_integrate_x_straddle; assumption.
+  - intros H1 HG Hc.
+    rewrite cgmy_integrate_x_zero_to_inf, cgmy_integrate_x_minf_to_zero by assumption.
+    rewrite !Rmult_0_r, H1.
+    assert (Pm : 0 < Rpower m (y - 1)) by apply exp_pos. assert (Pg : 0 < Rpower g (y - 1)) by apply exp_pos.
+    assert (Q : 0 < / (1 - y)) by (apply Rinv_0_lt_compat; lra).
+    split; [unfold Rdiv; ring|]. unfold Rdiv. split.
+    + apply Rmult_lt_0_compat; [assumption|]. apply Rmult_lt_0_compat; [|assumption]. apply Rmult_lt_0_compat; [assumption|]. lra.
+    + assert (0 < c * (Rpower g (y - 1) * (sf_Gamma sf (2 - y) * 1) * / (1 - y))); [|lra].
+      apply Rmult_lt_0_compat; [assumption|]. apply Rmult_lt_0_compat; [|assumption]. apply Rmult_lt_0_compat; [assumption|]. lra.
+  - intros Hcont b eps Hb HbI He.
+    (* |I(a,b) - I(0,b)| = |c| |hxx(a) - hxx(0)|, hxx(a) - hxx(0) = (a^(1-y) e^{-ma} - m^(y-1) (G(ma) - G(0))) / (y - 1) *)
+    set (C := Rabs c * / (1 - y) * (1 + Rpower m (y - 1))).
+    assert (Q : 0 < / (1 - y)) by (apply Rinv_0_lt_compat; lra).
+    assert (Pm : 0 < Rpower m (y - 1)) by apply exp_pos.
+    assert (HC : 0 <= C) by (unfold C; apply Rmult_le_pos; [apply Rmult_le_pos; [apply Rabs_pos | lra] | lra]).
+    set (e1 := eps / (C + 1)).
+    assert (He1 : 0 < e1) by (unfold e1; apply Rdiv_lt_0_compat; lra).
+    destruct (Rpower_to_zero (1 - y) e1) as [d1 [Hd1 P1]]; [lra | assumption |].
+    destruct (Hcont (2 - y) e1 He1) as [d2 [Hd2 P2]].
+    exists (Rmin b (Rmin d1 (d2 / m))). split.
+    { apply Rmin_glb_lt; [assumption|]. apply Rmin_glb_lt; [assumption|]. apply Rdiv_lt_0_compat; assumption. }
+    intros a [Ha0 Had].
+    assert (Hab : a < b) by (eapply Rlt_le_trans; [exact Had | apply Rmin_l]).
+    assert (Had1 : a < d1) by (eapply Rlt_le_trans; [exact Had |]; eapply Rle_trans; [apply Rmin_r | apply Rmin_l]).
+    assert (Had2 : a < d2 / m) by (eapply Rlt_le_trans; [exact Had |]; eapply Rle_trans; [apply Rmin_r | apply Rmin_r]).
+    assert (Hma : 0 < m * a < d2).
+    { split; [apply Rmult_lt_0_compat; assumption|]. apply (Rmult_lt_compat_l m) in Had2; [|assumption].
+      replace (m * (d2 / m)) with d2 in Had2 by (field; lra). assumption. }
+    rewrite cgmy_integrate_x_from_zero by assumption.
+    unfold cgmy_integrate_x, cgmy_integrate_x_F at 1. cbv zeta.
+    rewrite (Reqb_ne a b) by lra. rb. rewrite (Reqb_ne b INF) by lra.
+    set (Hb' := cgmy_h_to_inf_for_xx sf INF y b m).
+    unfold cgmy_h_to_inf_for_xx at 1. cbv zeta. rewrite one_over_one, (Reqb_ne a 0) by lra. cbn [andb].
+    rewrite (Reqb_ne y 1) by lra. rewrite !pypow_ne0 by lra.
+    specialize (P1 a (conj Ha0 Had1)). specialize (P2 (m * a) Hma).
+    rewrite Rmult_0_r.
+    set (Ga := sf_Gamma sf (2 - y) * sf_gammaincc sf (2 - y) (m * a)) in *.
+    set (G0 := sf_Gamma sf (2 - y) * sf_gammaincc sf (2 - y) 0) in *.
+    set (P := Rpower a (1 - y)) in *. set (E := exp (- (m * a))).
+    assert (HP : 0 < P) by apply exp_pos.
+    assert (HE : 0 < E <= 1).
+    { split; [apply exp_pos|]. unfold E. rewrite <- exp_0. destruct Hma as [Hma _].
+      left. apply exp_increasing. lra. }
+    replace (c * ((P * E - Rpower m (y - 1) * sf_Gamma sf (2 - y) * sf_gammaincc sf (2 - y) (m * a)) / (y - 1) - Hb')
+             - c * (Rpower m (y - 1) * G0 / (1 - y) - Hb'))
+      with (c * / (1 - y) * (Rpower m (y - 1) * (Ga - G0) - P * E)) by (unfold Ga, G0; field; lra).
+    rewrite !Rabs_mult. rewrite (Rabs_pos_eq (/ (1 - y))) by lra.
+    assert (B : Rabs (Rpower m (y - 1) * (Ga - G0) - P * E) <= (1 + Rpower m (y - 1)) * e1).
+    { eapply Rle_trans; [apply Rabs_triang|]. rewrite Rabs_Ropp, !Rabs_mult.
+      rewrite (Rabs_pos_eq (Rpower m (y - 1))), (Rabs_pos_eq P), (Rabs_pos_eq E) by lra.
+      assert (P * E <= e1) by nra. assert (Rpower m (y - 1) * Rabs (Ga - G0) <= Rpower m (y - 1) * e1) by (apply Rmult_le_compat_l; lra).
+      lra. }
+    apply Rle_trans with (Rabs c * / (1 - y) * ((1 + Rpower m (y - 1)) * e1)).
+    { apply Rmult_le_compat_l; [apply Rmult_le_pos; [apply Rabs_pos | lra] | exact B]. }
+    replace (Rabs c * / (1 - y) * ((1 + Rpower m (y - 1)) * e1)) with (C * e1) by (unfold C; ring).
+    unfold e1. apply Rle_trans with ((C + 1) * (eps / (C + 1))); [apply Rmult_le_compat_r; [apply Rlt_le; assumption | lra]|].
+    right. field. lra.
+Qed.
+
+(* ---------------------------------------------------------------- wave 8 (audit 5a, dead definitions): the second-moment side.
+   _xx_levy_measure is x^2 times the density at EVERY x (np.power stays Rpower; at x = 0 both sides are 0);
+   integrate_against_xx hands every interval that does not straddle 0 to quad (sf_quad_xx: no theorem can say more than that);
+   on a straddling interval it is the sum of two LOWER incomplete gamma terms (sf_gammainc), stated here as a closed form only. *)
+Lemma cgmy_xx_density_is_xx_nu c g m y x : cgmy_xx_density c g m y x = x ^ 2 * cgmy_density c g m y x.
+Proof.
+  unfold cgmy_xx_density, cgmy_density. cbv zeta.
+  destruct (Req_dec x 0) as [-> | N].
+  { replace (Rltb 0 0) with false by (symmetry; apply Rltb_false; lra). ring. }
+  assert (A : 0 < Rabs x) by (apply Rabs_pos_lt; assumption).
+  assert (E : Rpower (Rabs x) (1 - y) = x ^ 2 * / Rpower (Rabs x) (y + 1)).
+  { replace (1 - y) with (2 + - (y + 1)) by ring. rewrite Rpower_plus, Rpower_Ropp.
+    replace 2 with (INR 2) at 1 by (simpl; ring). rewrite Rpower_pow by assumption. rewrite pow2_abs. reflexivity. }
+  rewrite E. destruct (Rltb x 0); [unfold Rdiv; ring|]. destruct (Rltb 0 x); unfold Rdiv; ring.
+Qed.
+
+Lemma c09_cgmy_gen_xx_pf : forall (sf : SpecialFns) c g m y,
+  (forall x, cgmy_xx_density c g m y x = x ^ 2 * cgmy_density c g m y x) /\
+  (forall a b, ~ (a < 0 < b) -> cgmy_integrate_xx sf c g m y a b = sf_quad_xx sf a b) /\
+  (forall a b, a < 0 < b -> m <> 0 -> g <> 0 ->
+     cgmy_integrate_xx sf c g m y a b
+     = c * sf_Gamma sf (2 - y) * sf_gammainc sf (2 - y) (m * b) / Rpower m (2 - y)
+       + c * sf_Gamma sf (2 - y) * sf_gammainc sf (2 - y) (- g * a) / Rpower g (2 - y)).
+Proof.
+  intros sf c g m y. split; [|split].
+  - intros x. apply cgmy_xx_density_is_xx_nu.
+  - intros a b H. unfold cgmy_integrate_xx.
+    destruct (Rltb a 0) eqn:Ea; destruct (Rltb 0 b) eqn:Eb; cbn [andb];
+      try (apply Rltb_true in Ea; apply Rltb_true in Eb; exfalso; apply H; split; assumption);
+      cbv zeta; destruct (Rltb 1 y); reflexivity.
+  - intros a b [Ha Hb] Hm Hg. unfold cgmy_integrate_xx.
+    replace (Rltb a 0) with true by (symmetry; apply Rltb_true; assumption).
+    replace (Rltb 0 b) with true by (symmetry; apply Rltb_true; assumption). cbn [andb]. cbv zeta.
+    rewrite (Reqb_ne m 0), (Reqb_ne g 0) by assumption. rewrite !pypow_ne0 by assumption. reflexivity.
+Qed.
+
+Lemma c09_cgmy_gen_endpoint_nonvacuous_pf :
+  let sf := {| sf_exp1 := fun _ => 0; sf_Gamma := fun _ => 1; sf_gammaincc := fun _ x => exp (- x); sf_gammainc := fun _ _ => 0;
+               sf_quad_xx := fun _ _ => 0 |} in
+  sf_gammaincc sf (2 - 1 / 2) 0 = 1 /\ 0 < sf_Gamma sf (2 - 1 / 2) /\
+  cgmy_integrate_x sf 9 1 3 5 (1 / 2) 0 9 = 1 * 1 * Rpower 5 (1 / 2 - 1) / (1 - 1 / 2) /\
+  pypow 0 (1 - 1 / 2) = 0 /\ Rpower 0 (1 - 1 / 2) = 1.
+Proof.
+  intros sf. split; [cbn; rewrite Ropp_0; apply exp_0|]. split; [cbn; lra|]. split.
+  - rewrite cgmy_integrate_x_zero_to_inf by lra. cbn. rewrite Rmult_0_r, Ropp_0, exp_0. field.
+  - destruct (Rpower_0_is_not_python (1 - 1 / 2)) as [A B]; [lra|]. split; assumption.
 Qed.
